@@ -3,7 +3,7 @@
 D="$1"; P="$2"; T="${3:-quick}"
 cd /repo || exit 9
 git diff --quiet || { echo "repo dirty"; exit 9; }
-git apply "$D" 2>/dev/null || patch -p1 -s --fuzz=3 --no-backup-if-mismatch < "$D" || { echo "patch does not apply"; git checkout -- .; exit 9; }
+git apply "$D" || { echo "patch does not apply"; git checkout -- .; exit 9; }
 cd /verif && ./check "$P" "$T" > /tmp/mutcheck_$$.log 2>&1; rc=$?
 git -C /repo checkout -- . ; git -C /repo clean -fdq src
 grep -E "VIOLATION|INCONCLUSIVE|^OK|HARNESS|KNOWN" /tmp/mutcheck_$$.log | head -8
